@@ -13,7 +13,8 @@ import gen_c07_cases as G
 import tr_c07_limits
 
 LEVEL = 'proof'
-ENGINES = [('-ei',), ('-eg', '-O0'), ('-eg', '-O1'), ('-eg', '-O2'), ('-eg', '-O3'), ('-el',), ('-eb',)]
+# options must precede -e?: everything after it is passed to the program
+ENGINES = [('-ei',), ('-O0', '-eg'), ('-O1', '-eg'), ('-O2', '-eg'), ('-O3', '-eg'), ('-el',), ('-eb',)]
 
 
 def ename(e):
@@ -281,6 +282,116 @@ def bisect_values(c2m, cs, ex, d, bad0):
                 h = len(idx) // 2
                 work += [idx[:h], idx[h:]]
     return out
+
+
+# ------------------------------------------------------------------ B: generated programs
+def build_ext(d):
+    so = os.path.join(d, 'libc07ext.so')
+    if not os.path.exists(so):
+        vlib.sh(['gcc', '-shared', '-fPIC', '-O1', '-w', '-o', so, os.path.join(vlib.VERIF, 'harness', 'c07_ext.c')],
+                check=True, timeout=120)
+    return so
+
+
+def reference_run(src, d, tag, use_ext):
+    """gcc -O1 result (rc, stdout) or None when the program is not a valid test: UBSan report, or
+    -O0 and -O2 disagree (unspecified behaviour), or gcc rejects it (generator bug)."""
+    ext = [os.path.join(vlib.VERIF, 'harness', 'c07_ext.c')] if use_ext else []
+    outs = []
+    for i, fl in enumerate((['-O0', '-fsanitize=undefined', '-fno-sanitize-recover=all'], ['-O1'], ['-O2'])):
+        exe = os.path.join(d, '%s.g%d' % (tag, i))
+        rc, out, err = vlib.sh(['gcc', '-w', '-std=gnu11'] + fl + [src] + ext + ['-o', exe, '-lm'], timeout=300, cwd=d)
+        if rc != 0:
+            return None, 'gcc rejects: ' + err[-300:]
+        rc, out, err = vlib.sh([exe], timeout=60, cwd=d)
+        if 'runtime error' in err:
+            return None, 'UBSan: ' + err[-300:]
+        outs.append((rc, out))
+    if outs[0] != outs[1] or outs[1] != outs[2]:
+        return None, 'gcc -O0/-O1/-O2 disagree'
+    return outs[1], ''
+
+
+def c2m_runs(c2m, src, d, use_ext, engines=ENGINES):
+    res = {}
+    lib = ['-L' + d, '-lc07ext'] if use_ext else []
+    for e in engines:
+        rc, out, err = vlib.sh([c2m, '-w', src] + lib + list(e), timeout=120, cwd=d)
+        res[ename(e)] = (rc, out, err[-300:])
+    return res
+
+
+def prog_disagreements(ref, res):
+    bad = []
+    for e, (rc, out, err) in sorted(res.items()):
+        if (rc, out) != ref:
+            what = 'exit status %d vs %d' % (rc, ref[0]) if out == ref[1] else 'stdout differs'
+            if rc not in range(0, 64) and out != ref[1]:
+                what = 'c2m failed (rc=%d): %s' % (rc, err.strip().split('\n')[-1][:160] if err.strip() else 'no message')
+            bad.append((e, what))
+    return bad
+
+
+def shrink_program(c2m, text, d, use_ext, engine):
+    """line-based delta debugging that keeps the program valid (gcc + UBSan clean) and still failing"""
+    lines = text.split('\n')
+    e = [x for x in ENGINES if ename(x) == engine] or [ENGINES[0]]
+
+    def fails(sub):
+        src = os.path.join(d, 'shr.c')
+        open(src, 'w').write('\n'.join(sub) + '\n')
+        ref, why = reference_run(src, d, 'shr', use_ext)
+        if ref is None:
+            return False
+        res = c2m_runs(c2m, src, d, use_ext, e)
+        return bool(prog_disagreements(ref, res))
+    return '\n'.join(vlib.shrink_list(lines, fails, max_steps=150))
+
+
+def part_programs(chk, c2m, d, quick):
+    import gen_c07_prog as P
+    build_ext(d)
+    n = 60 if quick else 1500
+    findings = []
+    invalid = 0
+    texts = []
+    cp = os.path.join(vlib.VERIF, 'corpus')
+    for f in sorted(os.listdir(cp)) if os.path.isdir(cp) else []:
+        if f.startswith('c07_prog') and f.endswith('.c'):
+            texts.append((f, open(os.path.join(cp, f)).read(), ['corpus']))
+    for i in range(n):
+        rng = chk.rng('prog%d' % i)
+        use_ext = rng.random() < 0.6
+        text, feats = P.generate(rng, use_ext=use_ext, size=1.0)
+        texts.append(('gen%d' % i, text, feats))
+    for name, text, feats in texts:
+        use_ext = 'ext_' in text
+        src = os.path.join(d, 'prog.c')
+        open(src, 'w').write(text)
+        ref, why = reference_run(src, d, 'prog', use_ext)
+        if ref is None:
+            invalid += 1
+            chk.dist('B_invalid', why.split(':')[0])
+            chk.notes.append('generated program %s discarded: %s' % (name, why[:200]))
+            continue
+        res = c2m_runs(c2m, src, d, use_ext)
+        chk.count('B:' + hashlib.sha1(text.encode()).hexdigest(), nontrivial=True, n=len(ENGINES))
+        for f in feats:
+            chk.dist('B_features', f.split(':')[0])
+        chk.dist('B_lines', (len(text.split('\n')) // 50) * 50)
+        bad = prog_disagreements(ref, res)
+        if bad:
+            findings.append((name, text, use_ext, bad, ref, res))
+    chk.dist('B_programs', 'valid', len(texts) - invalid)
+    chk.dist('B_programs', 'discarded', invalid)
+    for name, text, use_ext, bad, ref, res in findings[:3]:
+        small = shrink_program(c2m, text, d, use_ext, bad[0][0])
+        h = hashlib.sha1(small.encode()).hexdigest()[:12]
+        chk.finding('prog:' + h, dict(kind='prog', program=small, original=text, use_ext=use_ext, engines=[b[0] for b in bad],
+                                      what=[b[1] for b in bad], gcc=list(ref)),
+                    'generated program %s (%d lines after shrinking): c2m %s: %s' % (name, len(small.split('\n')),
+                                                                                     ','.join(b[0] for b in bad), bad[0][1]))
+    return len(texts) - invalid, findings
 
 
 # ------------------------------------------------------------------ driver
